@@ -32,7 +32,8 @@ ASSUMPTIONS = [
     "every history is executed in its own forked copy of a process that has never typed anything (no reset function is trusted)",
 ]
 DYNAMIC = ["dyn-child-of-YTKEntry", "dyn-typed-child", "dyn-same-name-YTKPart1", "dyn-generic-BsaI-module",
-           "dyn-structure-override", "dyn-vector-part", "dyn-grandchild-of-part", "dyn-blunt-cutter-child", "dyn-no-cutter-child"]
+           "dyn-structure-override", "dyn-vector-part", "dyn-grandchild-of-part", "dyn-blunt-cutter-child", "dyn-no-cutter-child",
+           "dyn-3p-BtsI-part", "dyn-3p-BsrDI-part", "dyn-3p-BtsI-vector-part"]
 UNUSABLE = {"dyn-blunt-cutter-child": "YTKEntry", "dyn-no-cutter-child": "YTKEntry"}     # witnesses are those of the parent
 
 
@@ -80,6 +81,13 @@ def define(name):
         return type(str("MyBluntEntry"), (ytk.YTKEntry,), {"cutter": EcoRV})
     if name == "dyn-no-cutter-child":
         return type(str("MyCutterlessEntry"), (ytk.YTKEntry,), {"cutter": NotImplemented})
+    # signature-typed parts over enzymes that leave 3' overhangs (no kit has one; two of them, so that one can come after the other)
+    if name in ("dyn-3p-BtsI-part", "dyn-3p-BsrDI-part", "dyn-3p-BtsI-vector-part"):
+        import Bio.Restriction as R
+        from moclo.core import parts
+        enz = getattr(R, name.split("-")[2])
+        base = vectors.EntryVector if "vector" in name else modules.Entry
+        return type(str("My3p" + name.split("-", 2)[2].replace("-", "")), (parts.AbstractPart, base), {"cutter": enz, "signature": ("AC", "GT") if "vector" not in name else ("GT", "AC")})
     raise KeyError(name)
 
 
@@ -107,7 +115,22 @@ def family(name):
 _inst = {}
 
 
+def three_prime_text(name, body):
+    """witness of a dyn-3p-* class, built from the enzyme geometry and the signature alone (the class is not asked for its
+    structure: asking is part of the history)"""
+    import Bio.Restriction as R
+    g = gen.geometry_of(getattr(R, name.split("-")[2]))
+    forbid = [g.site]
+    x, y = gen.word(0, 3, g.off, forbid), gen.word(0, 17, g.off, forbid)
+    if "vector" in name:
+        return gen.mk_vector(g, "GT", "AC", body, gen.word(0, 47, 3, forbid), x=x, y=y)
+    return gen.mk_module(g, "AC", body, "GT", gen.word(1, 31, 5, forbid), x=x, y=y)
+
+
 def own_instance(cls, name):
+    if name.startswith("dyn-3p-"):
+        import Bio.Restriction as R
+        return three_prime_text(name, gen.word(0, 9, 5, [getattr(R, name.split("-")[2]).site]))
     if name in UNUSABLE:
         cls, name = gen.class_by_name(UNUSABLE[name]), UNUSABLE[name]
     if name not in _inst:
@@ -122,6 +145,11 @@ _long = {}
 def long_instance(cls, name, illegal):
     """instance of the class structure whose wildcard run is a 96-letter word; `illegal` puts one more cutter site in its middle
     (both spellings share their first 60 and last letters: look-alikes for anything that compares or caches by prefix)"""
+    if name.startswith("dyn-3p-"):
+        import Bio.Restriction as R
+        site = getattr(R, name.split("-")[2]).site
+        w = gen.long_word(96, seed=5, forbid=[site])
+        return three_prime_text(name, (w[:66] + site + w[66 + len(site):]) if illegal else w)
     if name in UNUSABLE:
         cls, name = gen.class_by_name(UNUSABLE[name]), UNUSABLE[name]
     key = (name, illegal)
